@@ -423,14 +423,14 @@ def optimize_base_stock_levels(num_nodes=None, node_order_in_system=None, node_o
 				# outside of x-range.
 				if y_minus_d < x_lo:
 					the_cost[d_ind] = \
-						C_hat_lim1[j, find_nearest(x_ext, y_minus_d, True, index_x_ext)]
+						C_hat_lim1[j, find_nearest(x_ext, y_minus_d, True, index_x_ext)[0]]
 				elif y_minus_d > x_hi: # THIS SHOULD NEVER HAPPEN
 					print('WARNING: y > x + d', flush=True)
 					the_cost[d_ind] = \
-						C_hat_lim2[j, find_nearest(x_ext, y_minus_d, True, index_x_ext)]
+						C_hat_lim2[j, find_nearest(x_ext, y_minus_d, True, index_x_ext)[0]]
 				else:
 					the_cost[d_ind] = \
-						C_hat[j, find_nearest(x, y_minus_d, True, index_x)]
+						C_hat[j, find_nearest(x, y_minus_d, True, index_x)[0]]
 
 			# Calculate expected cost.
 			C[j, the_x] = np.dot(fd, the_cost)
@@ -443,7 +443,7 @@ def optimize_base_stock_levels(num_nodes=None, node_order_in_system=None, node_o
 		else:
 			# Yes -- use specified S.
 			S_star[j] = S[j]
-		C_star[j] = C[j, find_nearest(x, S_star[j], True, index_x)]
+		C_star[j] = C[j, find_nearest(x, S_star[j], True, index_x)[0]]
 
 		# Calculate C_bar
 		C_bar[j, :] = C[j, find_nearest(x, np.minimum(S_star[j], x), True, index_x)]
